@@ -165,12 +165,15 @@ func historyTouch(w *W, y int) {
 // distract: a conversion of some other moment (a year or some weeks away, on either side; which one rotates with n),
 // with a few accessors that go through package-level helpers, slipped in between two judged moments. One-slot memos
 // keyed too coarsely (by lunar year only, by month and day only, ...) hand the judged moment the distractor's answer.
-var distractOffsets = []int64{-365, 365, 40, -40, 300, -300, 1, -1, 59, -59}
+var distractOffsets = []int64{-365, 365, 40, -40, 300, -300, 1, -1, 59, -59, 20, -20, 330, -330, 90, -90}
 
 func distract(st ref.Stamp, n int) {
 	if n < 0 {
 		n = -n
 	}
+	// which offset: a hash of the moment and the counter (a plain rotation would pair each offset with the same few
+	// days of every year)
+	n = int(((uint64(st.Secs())/86400)*2654435761 + uint64(n)*40503) >> 5 % 1000003)
 	t := st.Secs() + distractOffsets[n%len(distractOffsets)]*86400
 	lo, hi := ref.Stamp{Y: minYear, M: 1, D: 1}.Secs(), ref.Stamp{Y: maxYear, M: 12, D: 31, H: 23, Mi: 59, S: 59}.Secs()
 	if t < lo || t > hi {
